@@ -95,6 +95,11 @@ def arbitrary(rnd, spec):
     for v in s["inputs"] + s["outputs"]:
         for t in v["terms"]:
             if t["cls"] == "Function":
+                # the term's own map of variables (only the Python representation carries it): 0..8 entries
+                n = rnd.choice([0, 0, 1, 3, 5, 6, 8])
+                t["variables"] = {f"k{j}": rnd.choice([0.5, 2.0, -1.25, rnd.uniform(-3, 3)]) for j in range(n)}
+                if n and rnd.random() < 0.7:
+                    t["formula"] = t["formula"] + " + k0"
                 continue
             t["params"] = [p * (1 + rnd.uniform(-1e-4, 1e-4)) + rnd.uniform(-1e-3, 1e-3) if (math.isfinite(p) and rnd.random() < 0.7) else p for p in t["params"]]
             if t["cls"] in ("PiShape", "Trapezoid", "Triangle", "Discrete", "Rectangle", "SShape", "ZShape"):
@@ -108,7 +113,7 @@ def arbitrary(rnd, spec):
                     t["params"] = sorted(t["params"])
             if t.get("height", 1.0) != 1.0:
                 t["height"] = min(0.99, max(0.01, t["height"] + rnd.uniform(-1e-3, 1e-3)))
-        v["description"] = rnd.choice(["", "it's \"quoted\"", "back\\slash", "a 'single' quote", "tab\tand unicode é"])
+        v["description"] = rnd.choice(["", "it's \"quoted\"", "back\\slash", "a 'single' quote", "tab\tand unicode é", "a long description that goes well beyond the thirty characters reprlib keeps by default, " * 2])
     for o in s["outputs"]:
         if not math.isnan(o["default_value"]):
             o["default_value"] = o["default_value"] + rnd.uniform(-1e-5, 1e-5)
@@ -144,7 +149,11 @@ def run(ctx):
         for i, rnd in ctx.cases("engines", nengines):
             d = rnd.choice([3, 3, 1, 6])
             with fl.settings.context(decimals=d):
-                spec = arbitrary(rnd, E.gen_engine(rnd, activations=tuple(c08.METHODS), d=d, descriptions=True, infinite=True, max_rules=4))
+                spec = arbitrary(rnd, E.gen_engine(rnd, activations=tuple(c08.METHODS), d=d, descriptions=True, infinite=True, max_rules=rnd.choice([4, 4, 9]), kinds=("integral", "ts", "ts", "tsukamoto", "inverse")))
+                if rnd.random() < 0.3:  # long lists (more than reprlib's default of six items)
+                    v = rnd.choice(spec["inputs"])
+                    lo_, hi_ = (v["minimum"] if math.isfinite(v["minimum"]) else -5.0), (v["maximum"] if math.isfinite(v["maximum"]) else 5.0)
+                    v["terms"] += [E.G.shape_term(rnd, f"x{v['name']}{j}", lo_, hi_, d=d) for j in range(7)]
                 try:
                     engine = E.build(fl, spec)
                 except Exception as ex:
